@@ -18,7 +18,7 @@ SELF = ['h_bits', 'h_struct', 'h_crc', 'h_math']
 def run_job(pid, hname, tier, wall_limit):
     t0 = time.time()
     env = dict(os.environ)
-    env['PYTHONPATH'] = ROOT + os.pathsep + '/repo'
+    env['PYTHONPATH'] = ROOT + os.pathsep + os.environ.get('VERIF_REPO', '/repo')
     env.setdefault('PYTHONHASHSEED', '0')
     try:
         p = subprocess.run([PY, '-m', 'vf.worker', pid, hname, tier], cwd=ROOT, env=env, capture_output=True,
@@ -35,7 +35,7 @@ def run_job(pid, hname, tier, wall_limit):
 
 
 def replay(pid, path):
-    sys.path.insert(0, '/repo')
+    sys.path.insert(0, os.environ.get('VERIF_REPO', '/repo'))
     import logging
     logging.disable(logging.CRITICAL)
     from vf.env.base import patch_threads
@@ -153,7 +153,8 @@ def main():
         'violations': len(violations),
     }
     os.makedirs(os.path.join(ROOT, 'evidence'), exist_ok=True)
-    with open(os.path.join(ROOT, 'evidence', pid + '.json'), 'w') as fh:
+    evname = pid + ('.partial' if (a.only or os.environ.get('VERIF_REPO')) else '') + '.json'
+    with open(os.path.join(ROOT, 'evidence', evname), 'w') as fh:
         json.dump(ev, fh, indent=1, default=str)
     for ln in known_lines:
         print(ln)
